@@ -36,6 +36,8 @@ const (
 	ImplHeap      = 1
 	ImplLiveWheel = 2 // live-worker scenario (see Live)
 	ImplLiveHeap  = 3
+	ImplParkWheel = 4 // worker parked on its output while a cancel arrives (see Parked)
+	ImplParkHeap  = 5
 )
 
 // MaxTicksPerStep bounds the work of one worker tick step of the wheel.
@@ -246,6 +248,19 @@ func init() {
 // Chan() is drained until the scheduler is quiet.  The result only counts, so the verdict
 // does not depend on timing: (started delivered cancelled-true both neither final-size
 // still-scheduled-when-received).
+// guarded runs an API call that should return at once on its own goroutine and gives up
+// after 5 s (a call stuck on the scheduler's mutex must not hang the harness).
+func guarded(f func() int64) (int64, bool) {
+	c := make(chan int64, 1)
+	go func() { c <- f() }()
+	select {
+	case v := <-c:
+		return v, true
+	case <-time.After(5 * time.Second):
+		return 0, false
+	}
+}
+
 func Live(impl int64, n int) Sx {
 	sched.VerifNow = nil // wall clock
 	var t sched.Timer
@@ -263,6 +278,15 @@ func Live(impl int64, n int) Sx {
 	}
 	recs := make([]*rec, n)
 	var issuedN int64
+	stuck := int64(0) // an API call never came back although Chan() was being drained
+	sizeOf := func() int {
+		v, ok := guarded(func() int64 { return int64(t.Size()) })
+		if !ok {
+			stuck = 1
+			return 0
+		}
+		return int(v)
+	}
 	feeder := make(chan struct{})
 	go func() { // the start calls block once 128 requests are queued and the worker is stuck
 		defer close(feeder)
@@ -287,7 +311,7 @@ func Live(impl int64, n int) Sx {
 			started = true
 		default:
 		}
-		if started && t.Size() == 0 {
+		if started && sizeOf() == 0 {
 			break
 		}
 		time.Sleep(time.Millisecond)
@@ -303,8 +327,17 @@ func Live(impl int64, n int) Sx {
 			select {
 			case r := <-ch:
 				delivered[r.(*Job).Ord]++
-				if id := atomic.LoadInt64(&r.(*Job).liveID); id != 0 && t.IsScheduled(int(id)) {
-					stillSched++
+				if id := atomic.LoadInt64(&r.(*Job).liveID); id != 0 && stuck == 0 {
+					v, ok := guarded(func() int64 {
+						if t.IsScheduled(int(id)) {
+							return 1
+						}
+						return 0
+					})
+					if !ok {
+						stuck = 1
+					}
+					stillSched += v
 				}
 				end = time.Now().Add(limit)
 			default:
@@ -337,20 +370,29 @@ func Live(impl int64, n int) Sx {
 	// the consumer arrives: drain; feeder and canceller finish; the late ones are due at once
 	waitBoth := make(chan struct{})
 	go func() { <-feeder; <-cancels; close(waitBoth) }()
-	for done := false; !done; {
+	for done, limit := false, time.Now().Add(15*time.Second); !done; {
 		drainSome(30 * time.Millisecond)
 		select {
 		case <-waitBoth:
 			done = true
 		default:
+			if time.Now().After(limit) || stuck == 1 {
+				done, stuck = true, 1
+			}
 		}
 	}
+	if stuck == 1 {
+		return Ints(int64(n), 0, 0, 0, 0, -1, 0, 1)
+	}
 	end := time.Now().Add(20 * time.Second)
-	for t.Size() != 0 && time.Now().Before(end) {
+	for stuck == 0 && sizeOf() != 0 && time.Now().Before(end) {
 		drainSome(20 * time.Millisecond)
 	}
 	drainSome(100 * time.Millisecond)
-	size := t.Size()
+	size := sizeOf()
+	if stuck == 1 {
+		return Ints(int64(n), 0, 0, 0, 0, -1, 0, 1)
+	}
 	var nDelivered, nCancelled, both, neither int64
 	for _, r := range recs {
 		d := delivered[r.job.Ord]
@@ -368,7 +410,142 @@ func Live(impl int64, n int) Sx {
 		}
 	}
 	t.Shutdown()
-	return Ints(int64(n), nDelivered, nCancelled, both, neither, int64(size), stillSched)
+	return Ints(int64(n), nDelivered, nCancelled, both, neither, int64(size), stillSched, 0)
+}
+
+// insideTick reports whether some goroutine is inside the worker's tick code (tick /
+// expireNear) and waiting there: in a channel send, a select or a sleep.
+func insideTick() bool {
+	buf := make([]byte, 1<<20)
+	n := runtime.Stack(buf, true)
+	for _, g := range strings.Split(string(buf[:n]), "\n\n") {
+		if (strings.Contains(g, ").tick(") || strings.Contains(g, ").expireNear(")) &&
+			(strings.Contains(g, "[chan send") || strings.Contains(g, "[select") || strings.Contains(g, "[sleep")) {
+			return true
+		}
+	}
+	return false
+}
+
+// ParkedOnOutput: the worker's tick has more to hand over than Chan() holds and nobody reads it.
+// `extra` one-shot timers and one REPEATING timer P (variant 0) or one-shot timer P
+// (variant 1) are due on the same tick, P placed so that it is the first timer that does
+// not fit into the channel (wheel: bucket position cap+1; heap: last in Less order).  The
+// tick runs on its own goroutine; once it is established FROM THE GOROUTINE DUMP that it
+// waits inside tick/expireNear with the channel full, Cancel(P) is called; then Chan() is
+// drained until the tick returns.  Observation:
+// (parked cancelResult cancelReturned pAfter others expectedOthers size)
+//
+//	parked          1 if the worker was seen waiting inside the tick with Chan() full
+//	cancelResult    what Cancel(P) returned (1 true)
+//	cancelReturned  1 if Cancel came back within 5 s (it only queues a request)
+//	pAfter          how many runnables of P were received after Cancel had returned
+//	others          one-shot timers received, expectedOthers = how many were started
+//	size            Size() at the end
+func ParkedOnOutput(impl int64, variant int64) Sx {
+	var d sched.VerifDriver
+	capC := 0
+	if impl == ImplParkWheel {
+		d = sched.NewVerifWheel(1000, 0)
+	} else {
+		d = sched.NewVerifHeap(0)
+	}
+	t := d.Timer()
+	ch := t.Chan()
+	capC = cap(ch)
+	const delay = 3
+	extra := 7
+	pJob := &Job{Ord: -7}
+	var pid int
+	startP := func() {
+		if variant == 0 {
+			pid = t.RunEvery(delay, pJob)
+		} else {
+			pid = t.RunAfter(delay, pJob)
+		}
+		d.HandleAdd()
+	}
+	startOthers := func(n int) {
+		for i := 0; i < n; i++ {
+			t.RunAfter(delay, &Job{Ord: 1})
+			d.HandleAdd()
+		}
+	}
+	if impl == ImplParkWheel {
+		startOthers(capC) // they fill the channel
+		startP()          // the first one that does not fit
+		startOthers(extra)
+	} else {
+		startP() // smallest id: last among equal deadlines in the heap's order
+		startOthers(capC + extra)
+	}
+	expected := int64(capC + extra)
+	d.Pass(delay)
+	tickDone := make(chan bool, 1)
+	go func() {
+		p, _ := Catch(func() { d.Tick() })
+		tickDone <- p
+	}()
+	// establish: channel full and the worker waiting inside the tick (two dumps in a row)
+	parked := int64(0)
+	for end := time.Now().Add(10 * time.Second); time.Now().Before(end); {
+		if len(ch) == capC && insideTick() {
+			time.Sleep(20 * time.Millisecond)
+			if len(ch) == capC && insideTick() {
+				parked = 1
+				break
+			}
+		}
+		time.Sleep(time.Millisecond)
+		atomic.AddInt64(&progress, 1)
+	}
+	// the cancel arrives while the worker is parked
+	cres := make(chan bool, 1)
+	go func() { cres <- t.Cancel(pid) }()
+	var cancelResult, cancelReturned int64
+	select {
+	case r := <-cres:
+		cancelReturned = 1
+		if r {
+			cancelResult = 1
+		}
+	case <-time.After(5 * time.Second):
+	}
+	// the consumer arrives
+	var pAfter, others int64
+	take := func(r sched.Runnable) {
+		if r.(*Job) == pJob {
+			pAfter++
+		} else {
+			others++
+		}
+	}
+	finished := false
+	for end := time.Now().Add(20 * time.Second); !finished && time.Now().Before(end); {
+		select {
+		case r := <-ch:
+			take(r)
+		case <-tickDone:
+			finished = true
+		}
+	}
+	for more := true; more; {
+		select {
+		case r := <-ch:
+			take(r)
+		default:
+			more = false
+		}
+	}
+	d.HandleDel()
+	size := int64(-1)
+	if n, ok := d.TrySize(); ok {
+		size = int64(n)
+	}
+	if variant == 0 && cancelResult == 0 && size > 0 {
+		size-- // the repeating timer legitimately stays scheduled when its cancel was refused
+	}
+	return Ints(parked, cancelResult, cancelReturned, pAfter, others, expected, size)
 }
 
 // Run executes the history of `in` = (impl cur0 tt0 (op ...)) and returns (obs ...).
@@ -376,6 +553,9 @@ func Run(in Sx) Sx {
 	impl := in.At(0).Int64()
 	if impl == ImplLiveWheel || impl == ImplLiveHeap {
 		return Live(impl, int(in.At(1).Int64()))
+	}
+	if impl == ImplParkWheel || impl == ImplParkHeap {
+		return ParkedOnOutput(impl, in.At(1).Int64())
 	}
 	x := &exec{d: NewDriver(impl, in.At(1).Uint64(), in.At(2).Int64())}
 	x.tm = x.d.Timer()
